@@ -39,6 +39,79 @@ def _scene_hash_cover(ix):
     }, h
 
 
+def _planar_shortcut(run, ix):
+    import numpy as np
+    import sympy as sp
+    from ..index import const_eval
+
+    f = ix.func("trimesh.scene.scene:Scene.dump")
+    branch = None
+    for st in ast.walk(f.node):
+        if isinstance(st, ast.If) and isinstance(st.test, ast.Call) and ast.unparse(st.test.func) == "hasattr" and "to_3D" in ast.unparse(st.test):
+            branch = st
+    if branch is None:
+        raise AnalysisError("anchor vanished: the `hasattr(current, 'to_3D')` branch of Scene.dump")
+    grid = np.arange(16).reshape((4, 4))
+
+    def to_index(sl):
+        if isinstance(sl, ast.Slice):
+            return slice(*[None if v is None else const_eval(v) for v in (sl.lower, sl.upper, sl.step)])
+        if isinstance(sl, ast.Tuple):
+            return tuple(to_index(e) for e in sl.elts)
+        return const_eval(sl)
+
+    def region(sl):
+        try:
+            return grid[to_index(sl)]  # slicing of a constant index grid only
+        except Exception as e:
+            raise AnalysisError(f"Scene.dump: cannot evaluate the constant slice `{ast.unparse(sl)}`: {e}")
+
+    masked = set()
+    tol_ok = False
+    clip = None
+    decide = None
+    for st in ast.walk(branch):
+        if isinstance(st, ast.Assign) and isinstance(st.targets[0], ast.Subscript) and ast.unparse(st.targets[0].value) == "check" \
+                and isinstance(st.value, ast.Constant) and st.value.value is True:
+            masked |= set(int(v) for v in np.asarray(region(st.targets[0].slice)).ravel())
+        if isinstance(st, ast.Assign) and ast.unparse(st.targets[0]) == "check" and isinstance(st.value, ast.Call):
+            t = ast.unparse(st.value)
+            tol_ok = ("isclose(transform, util._IDENTITY" in t or "isclose(transform, np.eye(4)" in t)
+        if isinstance(st, ast.If) and "check" in ast.unparse(st.test):
+            decide = st
+    if decide is None or not tol_ok:
+        raise AnalysisError("anchor vanished: `check = isclose(transform, identity)` / `if not check.all()` in Scene.dump")
+    # which branch keeps the path planar
+    neg = isinstance(decide.test, ast.UnaryOp) and isinstance(decide.test.op, ast.Not)
+    planar_body = decide.orelse if neg else decide.body
+    for st in planar_body:
+        if isinstance(st, ast.Assign) and ast.unparse(st.targets[0]) == "transform" and isinstance(st.value, ast.Subscript) \
+                and ast.unparse(st.value.value) == "transform":
+            clip = np.asarray(region(st.value.slice))
+    if clip is None:
+        raise AnalysisError("anchor vanished: the clipped planar transform in Scene.dump")
+    S = sp.eye(4).as_mutable()
+    free = []
+    for k in sorted(masked):
+        r, c = divmod(k, 4)
+        S[r, c] = sp.Symbol(f"m{r}{c}", real=True)
+        free.append((r, c))
+    x, y = sp.symbols("x y", real=True)
+    ok = clip.shape == (3, 3)
+    detail = f"ignored entries {free}, clipped indices {clip.tolist()}"
+    if ok:
+        C = sp.Matrix(3, 3, lambda i, j: S[divmod(int(clip[i, j]), 4)])
+        two = C * sp.Matrix([x, y, 1])
+        three = S * sp.Matrix([x, y, 0, 1])
+        eqs = [sp.expand(two[0] - three[0] * two[2]), sp.expand(two[1] - three[1] * two[2]), sp.expand(three[2]), sp.expand(two[2] - 1), sp.expand(three[3] - 1)]
+        ok = all(e == 0 for e in eqs)
+        detail += f"; residuals {[str(e) for e in eqs if e != 0]}"
+    run.obligation("R8", f.where, f"planar shortcut == 3D transform on z = 0 ({detail})", ok)
+    if not ok:
+        run.violation("R8", f.where, f"Scene.dump keeps a Path2D planar for matrices whose clipped 3x3 does not act on (x, y) like the 4x4 acts on (x, y, 0): {detail}. "
+                                     f"The baked path is displaced (or loses its offset) relative to the node transform", key=key_of("C10-R8", "planar-clip"))
+
+
 def check(run):
     ix = Index(run.repo)
     ef = Effects(ix)
@@ -209,6 +282,10 @@ def check(run):
                                       "geometry that has none): KeyError / misaligned weights for scenes with paths or point clouds",
                       key=key_of("C10-R4", "center_mass-filters"))
     run.floor("guard/use sites", n4, 4)
+
+    # ---- R8 baking a 2D path: the planar shortcut agrees with the full transform on the plane
+    run.rule("R8", "Scene.dump: for every matrix that passes the planarity test, applying the clipped 3x3 to (x, y) equals applying the 4x4 to (x, y, 0) (symbolic identity over the entries the test ignores)")
+    _planar_shortcut(run, ix)
 
     # ---- R7
     raw_reads(run, ix, ef, "R7", "C10", module_filter=lambda m: m.startswith("trimesh.scene"), floor=0)
